@@ -276,3 +276,22 @@ def R_closure(toks, arg):
             i = pe + 1; continue
         i += 1
     raise ScanError(f"R-closure: closure #{n} not found")
+
+def R_pubcrate(toks):
+    """`pub(crate)` becomes `pub` (visibility only; the single-file unit has its own module layout)."""
+    out = []; n = 0; i = 0
+    while i < len(toks):
+        t = toks[i]
+        if t.text == "pub" and i + 3 < len(toks) and toks[i+1].text == "(" and toks[i+2].text == "crate" and toks[i+3].text == ")":
+            out.append(t); i += 4; n += 1; continue
+        out.append(t); i += 1
+    return out, n
+
+def R_dynauth(toks):
+    """`&dyn S3Auth` becomes `&S3AuthObj` (a trait object only handed around is read as a reference to an opaque object)."""
+    out = []; n = 0; i = 0
+    while i < len(toks):
+        if toks[i].text == "dyn" and i + 1 < len(toks) and toks[i+1].text == "S3Auth":
+            t = Tok("ident", "S3AuthObj", toks[i].pre, line=toks[i].line); out.append(t); i += 2; n += 1; continue
+        out.append(toks[i]); i += 1
+    return out, n
